@@ -475,6 +475,131 @@ num_harness!(num_floor_remainder_i_big, 8, {
     core::mem::forget(args);
 });
 
+// ------------------------------------------------------------------ machine integer by big integer
+// The six quotient / remainder primitives with a machine-integer dividend and a big-integer
+// divisor just beyond +-2^63.  num-bigint's long division (Knuth D, inline `div` assembly) is not
+// executed: its four entry points are replaced by an exact model that is valid when the dividend's
+// magnitude is below twice the divisor's (quotient digit 0 or 1), which is the operand region of
+// these harnesses.  What is decided: which num-bigint operation steel applies to which operands,
+// the sign / floor / euclidean adjustments, and the canonical form of the result.
+static mut DIV_MODEL_USED: bool = false;
+fn div_model(a: u128, b: u128) -> (u128, u128) {
+    if b == 0 {
+        panic!("attempt to divide by zero");
+    }
+    kani::assume(b < (1u128 << 100) && a < 2 * b);
+    unsafe { DIV_MODEL_USED = true };
+    if a >= b {
+        (1, a - b)
+    } else {
+        (0, a)
+    }
+}
+fn biguint_div_rem_stub(u: num_bigint::BigUint, d: num_bigint::BigUint) -> (num_bigint::BigUint, num_bigint::BigUint) {
+    let (a, b) = (u.to_u128(), d.to_u128());
+    kani::assume(a.is_some() && b.is_some());
+    let (q, r) = div_model(a.unwrap(), b.unwrap());
+    (num_bigint::BigUint::from(q), num_bigint::BigUint::from(r))
+}
+fn biguint_div_rem_ref_stub(u: &num_bigint::BigUint, d: &num_bigint::BigUint) -> (num_bigint::BigUint, num_bigint::BigUint) {
+    let (a, b) = (u.to_u128(), d.to_u128());
+    kani::assume(a.is_some() && b.is_some());
+    let (q, r) = div_model(a.unwrap(), b.unwrap());
+    (num_bigint::BigUint::from(q), num_bigint::BigUint::from(r))
+}
+fn biguint_div_rem_digit_stub(u: num_bigint::BigUint, d: u64) -> (num_bigint::BigUint, u64) {
+    let a = u.to_u128();
+    kani::assume(a.is_some());
+    let (q, r) = div_model(a.unwrap(), d as u128);
+    (num_bigint::BigUint::from(q), r as u64)
+}
+fn biguint_rem_digit_stub(u: &num_bigint::BigUint, d: u64) -> u64 {
+    let a = u.to_u128();
+    kani::assume(a.is_some());
+    let (_q, r) = div_model(a.unwrap(), d as u128);
+    r as u64
+}
+
+/// which = 0..5: truncate-quotient, truncate-remainder, floor-quotient, floor-remainder,
+/// euclidean-quotient, euclidean-remainder of x by d, with |x| <= 2^63 <= |d| (closed forms, no division)
+fn small_by_big_expected(which: u8, x: i128, d: i128) -> i128 {
+    let exact = x == -(1i128 << 63) && d == (1i128 << 63); // the only pair with |x| == |d|
+    let opposite = x != 0 && ((x < 0) != (d < 0));
+    let absd = if d < 0 { -d } else { d };
+    match which {
+        0 => if exact { -1 } else { 0 },
+        1 => if exact { 0 } else { x },
+        2 => if opposite { -1 } else { 0 },
+        3 => if opposite { x + d } else { x },
+        4 => if x >= 0 { 0 } else if d < 0 { 1 } else { -1 },
+        _ => if x >= 0 { x } else { x + absd },
+    }
+}
+
+macro_rules! small_by_big {
+    ($name:ident, $f:ident, $which:expr) => {
+        #[kani::proof]
+        #[kani::unwind(8)]
+        #[kani::stub(std::rt::thread_cleanup, noop)]
+        #[kani::stub(alloc::fmt::format, fmt_stub)]
+        #[kani::stub(core::arch::x86_64::_addcarry_u64, addcarry_stub)]
+        #[kani::stub(core::arch::x86_64::_subborrow_u64, subborrow_stub)]
+        #[kani::stub(num_bigint::biguint::division::div_rem, biguint_div_rem_stub)]
+        #[kani::stub(num_bigint::biguint::division::div_rem_ref, biguint_div_rem_ref_stub)]
+        #[kani::stub(num_bigint::biguint::division::div_rem_digit, biguint_div_rem_digit_stub)]
+        #[kani::stub(num_bigint::biguint::division::rem_digit, biguint_rem_digit_stub)]
+        fn $name() {
+            tag_init();
+            let x: isize = kani::any();
+            let off: u16 = kani::any();
+            let neg: bool = kani::any();
+            // divisor: 2^63 + off, or -(2^63 + 1 + off) (the smallest magnitudes that are big integers)
+            let d: i128 = if neg { -((1i128 << 63) + 1 + off as i128) } else { (1i128 << 63) + off as i128 };
+            let args = [IntV(x), big(d)];
+            let r = $f(&args);
+            kani::cover!(x == isize::MIN && d == (1i128 << 63), "dividend and divisor of equal magnitude");
+            kani::cover!(x < 0 && !neg, "negative dividend, positive divisor");
+            kani::cover!(x > 0 && neg, "positive dividend, negative divisor");
+            kani::cover!(unsafe { DIV_MODEL_USED }, "the big-integer division was reached");
+            match &r {
+                Ok(v) => {
+                    check_exact_int(v, small_by_big_expected($which, x as i128, d));
+                }
+                Err(_) => {
+                    vassert!(false, "integer division by a non-zero big integer returned an error");
+                }
+            }
+            core::mem::forget(r);
+            core::mem::forget(args);
+        }
+    };
+}
+small_by_big!(num_truncate_quotient_i_big, truncate_quotient, 0);
+small_by_big!(num_truncate_remainder_i_big, truncate_remainder, 1);
+small_by_big!(num_floor_quotient_i_big, floor_quotient, 2);
+small_by_big!(num_floor_remainder_i_big2, floor_remainder, 3);
+small_by_big!(num_euclidean_quotient_i_big, euclidean_quotient, 4);
+small_by_big!(num_euclidean_remainder_i_big, euclidean_remainder, 5);
+
+// (magnitude x) on a machine integer: |x| exactly, promoted when it does not fit
+num_harness!(num_magnitude_i, 6, {
+    let x: isize = kani::any();
+    let a = IntV(x);
+    let r = magnitude(&a);
+    kani::cover!(x == isize::MIN, "most negative");
+    kani::cover!(x < 0, "negative");
+    match &r {
+        Ok(v) => {
+            let e = if x < 0 { -(x as i128) } else { x as i128 };
+            check_exact_int(v, e);
+        }
+        Err(_) => {
+            vassert!(false, "magnitude of an integer returned an error");
+        }
+    }
+    core::mem::forget(r);
+});
+
 // ------------------------------------------------------------------ rationals
 // negate of a reduced rational n/3 for every i32 numerator not divisible by 3
 #[kani::proof]
@@ -529,6 +654,34 @@ num_harness!(num_int_float_equality, 4, {
         }
         _ => {
             vassert!(false, "= on numbers did not return a boolean");
+        }
+    }
+    core::mem::forget(r);
+});
+
+// (exact x) for an integral double: the integer with exactly that value -- a machine integer when it
+// fits, a big integer beyond (never a saturated or wrapped machine integer)
+num_harness!(num_exact_of_integral_double, 6, {
+    let f: f64 = kani::any();
+    kani::assume(f.is_finite() && f == f.trunc());
+    let fits_word = f >= -9223372036854775808.0 && f < 9223372036854775808.0;
+    let r = exact(&NumV(f));
+    kani::cover!(fits_word && f != 0.0, "fits a machine integer");
+    kani::cover!(!fits_word && f > 0.0, "beyond +2^63");
+    kani::cover!(!fits_word && f < 0.0, "beyond -2^63");
+    match &r {
+        Ok(IntV(v)) => {
+            vassert!(fits_word, "exact of a double beyond the machine-integer range returned a (saturated) machine integer");
+            vassert!((*v as i128) == (f as i128), "exact of an integral double has another value");
+        }
+        Ok(BigNum(_)) => {
+            vassert!(!fits_word, "non-canonical: exact returned a big integer for a value that fits");
+        }
+        Ok(_) => {
+            vassert!(false, "exact of an integral double is not an integer");
+        }
+        Err(_) => {
+            vassert!(false, "exact of a finite integral double is an error");
         }
     }
     core::mem::forget(r);
